@@ -176,11 +176,35 @@ def run_ledger(ctx, lk, entries, errors, options):
               lambda: ' '.join(str(n) for n in range(len(conn.execute('SELECT date FROM #entries').fetchall()))))
 
 
+def with_generated_postings(rng, entries):
+    """adds transactions the way plugins and summarisation do: postings WITHOUT a metadata dict (meta is None) under an
+    entry that carries metadata, and one posting with metadata of its own"""
+    from beancount.core import data
+    from beancount.core.amount import Amount
+    from decimal import Decimal
+    txns = [e for e in entries if isinstance(e, data.Transaction)]
+    if not txns:
+        return entries
+    out = list(entries)
+    for k in range(rng.range(1, 2)):
+        base = rng.choice(txns)
+        meta = data.new_metadata('<generated>', 9000 + k)
+        meta.update({'category': 'generated-%d' % k, 'ref': 70 + k, 'note': 'entry-level note'})
+        t = data.Transaction(meta, base.date, 'G', None, 'generated %d' % k, frozenset({'gen'}), data.EMPTY_SET, [])
+        data.create_simple_posting(t, 'Expenses:Food', Decimal(10 + k), 'USD')
+        data.create_simple_posting(t, 'Assets:Bank:Checking', Decimal(-10 - k), 'USD')
+        t.postings.append(data.Posting('Expenses:Rent', Amount(Decimal('0'), 'USD'), None, None, None, {'filename': '<generated>', 'lineno': 1, 'note': 'own note'}))
+        out.append(t)
+    out.sort(key=data.entry_sortkey)
+    return out
+
+
 def run(ctx):
     rng = ctx.rng
     n = 25 if ctx.thorough() else 5
     for lk in range(n):
         text, entries, errors, options = ledgers.gen_ledger(rng, ntxn=rng.range(4, 22))
+        entries = with_generated_postings(rng, entries)
         run_ledger(ctx, lk, entries, errors, options)
         if lk == 0 and len(ctx.samples) < 6:
             ctx.samples.append({'case': 'ledger', 'text': text[:600]})
